@@ -602,7 +602,8 @@ def corpus_table():
 
 
 def part_locks(run, part):
-    """C17: every recorded lock trace is a trace of the operation's lock program (accepts) and respects the order"""
+    """C17: every recorded lock trace respects the lock order and ends holding nothing (trace_ordered, the hypothesis
+    of the trace-level theorem); whether it also has the shape written down in LockProgs.v is counted, not required"""
     ensure_corpus()
     if not build_harness(run, "vh-macro"):
         return
@@ -630,7 +631,8 @@ def part_locks(run, part):
     run.ext_nontrivial += oks
     run.cov["histograms"]["lock_traces"] = stats
     run.cov["samples"] += [dict(lock_trace=l.strip()[:300]) for l in open(tf).readlines()[3:5]]
-    run.rules.append("locks: one recorded lock trace per operation kind per global/async corpus function; every accepted trace counts")
+    run.rules.append("locks: one recorded lock trace per operation kind per global/async corpus function; every trace that satisfies "
+                     "trace_ordered (extracted from LockProgs.v) counts; traces outside the modelled programs are counted in the histogram")
     run.cov["parts"].append(dict(kind="locks", traces=oks + len(bad)))
     run.lock_problems = fails + bad
     if rc != 0 and not (fails or bad):
@@ -643,6 +645,7 @@ def check_sched_case(lines, table):
     f = int(head[2][1:])
     info = table[f]
     problems, deadlock = [], False
+    a_op = []
     expect = lambda fi, x: 2 * ((fi * 37 + x * 11) % 500 + 1)
     for l in lines[1:]:
         t = l.split()
@@ -675,6 +678,28 @@ def check_sched_case(lines, table):
                                 % (m.group(1), m.group(2), m.group(3), expect(int(m.group(1)), int(m.group(2)))))
             if "panic=" in l:
                 problems.append("PANIC " + l)
+        elif t[0] == "AOP":
+            a_op = t[1:]
+        elif t[0] == "WM":
+            # thread A is parked between two of its critical sections (holding nothing), B has finished:
+            # async: queue and store hold the same keys (C18_async_consistent_always); sync: every stored
+            # key is queued or is the one key whose store A is in the middle of (C18_tracked_or_pending)
+            parts = [x.strip() for x in l[3:].split("|")]
+            wf = int(parts[0])
+            q = [] if parts[1] == "-" else parts[1].split(",")
+            keys = [] if parts[2] == "-" else [e.split(":")[0] for e in parts[2].split(";")]
+            untracked = [k for k in keys if k not in q]
+            pending_here = 1 if (a_op[:1] == ["call"] and len(a_op) > 1 and int(a_op[1]) == wf and table[wf]["fl"] != "a") else 0
+            if len(untracked) > pending_here:
+                problems.append("UNTRACKED f%d (mid-execution, A parked holding nothing): keys %s are stored but not in the order queue %s"
+                                % (wf, untracked, q))
+            if table[wf]["fl"] == "a":
+                orphans = [k for k in q if k not in keys]
+                if orphans or len(set(q)) != len(q):
+                    problems.append("UNTRACKED f%d (mid-execution): async queue %s does not match the stored keys %s" % (wf, q, keys))
+                lim = table[wf]["limit"]
+                if lim is not None and len(keys) > lim:
+                    problems.append("LIMIT f%d holds %d entries between two critical sections, limit %d" % (wf, len(keys), lim))
         elif t[0] == "W":
             parts = [x.strip() for x in l[2:].split("|")]
             wf = int(parts[0])
